@@ -83,8 +83,17 @@ def per_base(bw):
     return arr
 
 
-def gen_region(rng, ivs, size):
+def gen_region(rng, ivs, size, allow_zero=False):
     k = rng.random()
+    if allow_zero and k >= 0.97:
+        # a zero-length region (an insertion point): size 0, nothing covered -> NaN mean / min / max; what the
+        # mean over the region (0/0) prints is not specified, only that it is the same for every -t
+        if ivs and rng.random() < 0.6:
+            s0, e0, _ = rng.choice(ivs)
+            p = rng.randint(s0, e0)
+        else:
+            p = rng.randint(0, size)
+        return "zero_length", p, p
     if k < 0.25:
         s0, e0, _ = rng.choice(ivs)
         s = rng.randint(s0, e0 - 1)
@@ -155,7 +164,7 @@ def gen_regions(rng, bw, tier, small=False):
     rows, cats = [], {}
     for i in range(n):
         chrom = rng.choice(bw["names"])
-        cat, s, e = gen_region(rng, bw["data"][chrom], bw["sizes"][chrom])
+        cat, s, e = gen_region(rng, bw["data"][chrom], bw["sizes"][chrom], allow_zero=not small)
         if small and e - s > 300:
             e = s + rng.randint(1, 300)
         cats[cat] = cats.get(cat, 0) + 1
@@ -226,7 +235,7 @@ def model_row(arr, row, minmax):
     size = e - s
     bases = len(vals)
     total = math.fsum(vals)
-    mean0 = total / size
+    mean0 = (total / size) if size else None  # None = not judged (0/0)
     if bases:
         mean, mn, mx = total / bases, min(vals), max(vals)
     else:
@@ -395,7 +404,9 @@ def _check_avg_output(c, data, reg, arr, mode, minmax, where, n, detail):
             except ValueError:
                 bad_stat = (field + ":unparsable", i, want, got_txt)
                 break
-            if field in ("size", "bases"):
+            if want is None:
+                ok = True
+            elif field in ("size", "bases"):
                 ok = got_txt == str(want)
             elif want != want:
                 ok = got != got
